@@ -3,6 +3,7 @@ package checks
 import (
 	"bytes"
 	"fmt"
+	"sort"
 	"strings"
 
 	"github.com/titpetric/vuego"
@@ -39,6 +40,8 @@ func (c *c11Case) Key() string { return core.KeyOf(c) }
 
 func (c *c11Case) CrashWhere() string {
 	switch c.Part {
+	case "funcs":
+		return "funcs/" + c.Pos
 	case "types":
 		return "types/" + c.Pos
 	case "graph":
@@ -97,12 +100,87 @@ var c11Positions = []struct{ Name, Tpl string }{
 	{"vonce-for", `<p v-for="it in X" v-once>{{ it }}</p>`},
 }
 
+// registered functions of every shape the FuncMap accepts (it takes any value), none of which
+// panics itself: whatever the engine does to call them must end in a value or an error
+var c11Funcs = func() map[string]any {
+	var nilFn func(string) string
+	return map[string]any{
+		"str1":     func(s string) string { return s },
+		"int1":     func(n int) int { return n },
+		"float1":   func(f float64) float64 { return f },
+		"bool1":    func(b bool) bool { return b },
+		"any1":     func(x any) any { return x },
+		"noarg":    func() string { return "n" },
+		"two":      func(a, b int) int { return a + b },
+		"variadic": func(parts ...string) string { return strings.Join(parts, ",") },
+		"fixvar":   func(a, b int, rest ...int) int { return a + b + len(rest) },
+		"ctxstr":   func(ctx *vuego.VueContext, s string) string { return s },
+		"ctxvar":   func(ctx *vuego.VueContext, parts ...any) string { return fmt.Sprint(len(parts)) },
+		"ctxfix":   func(ctx *vuego.VueContext, width int, parts ...any) string { return fmt.Sprint(width, len(parts)) },
+		"ctxfixs":  func(ctx *vuego.VueContext, name string, parts ...string) string { return name + strings.Join(parts, "") },
+		"witherr":  func(s string) (string, error) { return s, nil },
+		"failing":  func(s string) (string, error) { return "", fmt.Errorf("no") },
+		"commaok":  func(s string) (string, bool) { return s, true },
+		"three":    func(s string) (string, int, error) { return s, 1, nil },
+		"noresult": func(s string) {},
+		"arr":      func(a [4]int) int { return a[0] },
+		"sl":       func(a []string) int { return len(a) },
+		"mp":       func(m map[string]any) int { return len(m) },
+		"ptr":      func(p *vStruct) string { return "p" },
+		"strct":    func(p vStruct) string { return p.Name },
+		"fn":       func(f func() string) string { return "f" },
+		"iface":    func(e error) string { return "e" },
+		"nilentry": nil,
+		"nilfunc":  nilFn,
+		"notfunc":  42,
+		"strval":   "text",
+	}
+}()
+
+var c11FuncNames = func() []string {
+	var ns []string
+	for k := range c11Funcs {
+		ns = append(ns, k)
+	}
+	sort.Strings(ns)
+	return ns
+}()
+
+var c11CallForms = []struct{ Name, Tpl string }{
+	{"call", `<p>{{ F(x) }}</p>`},
+	{"call0", `<p>{{ F() }}</p>`},
+	{"call3", `<p>{{ F(x, 1, "a") }}</p>`},
+	{"callxx", `<p>{{ F(x, x) }}</p>`},
+	{"pipe", `<p>{{ x | F }}</p>`},
+	{"pipeargs", `<p>{{ x | F(2, "b") }}</p>`},
+	{"pipemissing", `<p>{{ nothing | F }}</p>`},
+	{"vif", `<p v-if="F(x)">y</p><p v-else>n</p>`},
+	{"bind", `<p :title="F(x)">t</p>`},
+	{"bindpipe", `<p :title="x | F">t</p>`},
+	{"vfor", `<p v-for="it in F(x)">{{ it }}</p>`},
+	{"chain", `<p>{{ x | F | F }}</p>`},
+}
+
 var c11Tokens = []string{"<", ">", "</", "{{", "}}", "\"", "=", "<template", " include=", " v-for=\"", " v-if=\"", "<slot>", "---\n", "\x00", "a", "<!--", " v-html=\"", "|", "(", " in "}
 
 func (c *c11Case) Run(ctx *core.Ctx) {
 	ctx.NonTrivial()
 	var buf bytes.Buffer
 	switch c.Part {
+	case "funcs":
+		var tpl string
+		for _, f := range c11CallForms {
+			if f.Name == c.Pos {
+				tpl = strings.ReplaceAll(f.Tpl, "F", c.Src)
+			}
+		}
+		data := map[string]any{"x": wrongByName(c.Val)}
+		ctx.Eval(2)
+		err1 := vuego.New(vuego.WithFuncs(vuego.FuncMap(c11Funcs))).Fill(data).RenderString(bg, &buf, tpl)
+		v := vuego.NewVue(Files{"page.vuego": tpl}.FS())
+		v.Funcs(vuego.FuncMap(c11Funcs))
+		err2 := v.Render(&buf, "page.vuego", data)
+		ctx.Outcome(fmt.Sprint(err1 != nil, err2 != nil))
 	case "types":
 		var tpl string
 		for _, p := range c11Positions {
@@ -290,10 +368,11 @@ func init() {
 		Level:     "exploration",
 		CPUBudget: 15,
 		Rule: fmt.Sprintf("(1) %d directive positions (+ the value as root data) x %d Go values of every kind (scalars, NaN, nil and typed nils, maps with non-string keys, structs with unexported/embedded fields, func, chan, self-referential pointer, 1000-deep nesting), each through RenderString and Load+Render; ", len(c11Positions), len(wrongValues)) +
+			fmt.Sprintf("(1b) %d registered functions of every shape (fixed, variadic, context-taking, with error / comma-ok / three / no results, array, slice, map, pointer, struct, func and interface parameters, nil entries, values that are not functions) x %d call forms (call with 0..3 arguments, pipes with and without arguments, v-if, :attr, v-for) x the same values as argument; ", len(c11Funcs), len(c11CallForms)) +
 			"(2) all include graphs over 3 files where each file includes <=2 targets in 6 modes (direct, v-if true/false, v-for, as plain slot content, as v-slot content), the includes wrapped in an element, standing bare as the first nodes of the file, or inside a <template> root: must return, with an error iff a cycle is reachable; (3) every token string up to the bound over a 20-token alphabet as template source (string / file / Vue.Render) and as front-matter. " +
 			"oracle: the call returns - no panic (recovered per case), no fatal error or stack overflow (64 MiB stack cap, worker subprocess), no hang (CPU budget per case). non-trivial = all",
 		Bounds:      map[string]string{"quick": "graphs with <=1 edge per file in all modes plus 2 edges in {direct, vfor}; token strings of length <=3", "thorough": "graphs with <=1 edge per file in all 6 modes plus 2 edges in {direct, v-if, v-for, slot content}; token strings of length <=4"},
-		Assumptions: []string{"panics inside user-registered functions are the user's; none are registered here", "cyclic maps/slices (not JSON-like) are not generated"},
+		Assumptions: []string{"panics raised by the body of a user-registered function are the user's: the registered functions here never panic themselves", "cyclic maps/slices (not JSON-like) are not generated"},
 		Decode:      core.DecodeAs[c11Case](),
 		Enumerate: func(tier string, emit func(core.Case)) {
 			for _, p := range c11Positions {
@@ -303,6 +382,13 @@ func init() {
 			}
 			for _, w := range wrongValues {
 				emit(&c11Case{Part: "types", Pos: "root", Val: w.Name})
+			}
+			for _, fn := range c11FuncNames {
+				for _, form := range c11CallForms {
+					for _, w := range wrongValues {
+						emit(&c11Case{Part: "funcs", Pos: form.Name, Src: fn, Val: w.Name})
+					}
+				}
 			}
 			// graphs
 			targets := []string{"a", "b", "c"}
